@@ -812,9 +812,16 @@ Proof.
   - rewrite String.eqb_refl. cbn. split; auto.
 Qed.
 
+(* the next upgrade plan survives the re-import for every genesis time exactly when InitGenesis does not
+   check the time; with the check, a due plan is dropped *)
+Lemma import_next_plan_roundtrip : forall now plan, import_next_plan false now plan = plan.
+Proof. intros now [t|]; reflexivity. Qed.
+Lemma import_next_plan_drops_due : forall now t, t <= now -> import_next_plan true now (Some t) = None.
+Proof. intros now t H. unfold import_next_plan. destruct (Z.leb_spec t now); [reflexivity|lia]. Qed.
+
 (* ================================================================ 3. the checker accepts model runs *)
 
-Definition snap0 : snap := mkSnap [] [] [] 1 [] [] [] 1 (mkMs 0 0 [] [] 0 0) [] [] 0 0 0 [] 0.
+Definition snap0 : snap := mkSnap [] [] [] 1 [] [] [] 1 (mkMs 0 0 [] [] 0 0) [] [] 0 0 0 [] 0 false.
 Definition model_case (pop : list (string * string)) : c12_case :=
   mkCase RImported false pop (predicted_diffs pop) [] [] [] [] snap0 snap0.
 
